@@ -1,7 +1,9 @@
 package checks
 
 import (
+	"context"
 	"fmt"
+	"os"
 	"sort"
 	"strings"
 	"sync/atomic"
@@ -319,6 +321,7 @@ func C16(tier string) int {
 	} else {
 		runE1(rep, sc, explore.Config{Programs: explore.Pairs(n), SkipRejectedPrefix: true})
 	}
+	c16PassedContexts(rep)
 	return rep.Finish()
 }
 
@@ -334,4 +337,69 @@ func sysQuickPrograms(sc *sysScenario) [][]int {
 		}
 	}
 	return progs
+}
+
+// c16PassedContexts: the system context is handed to Db.Update / Db.Batch by the caller (instead of being derived
+// inside the transaction function): the transaction function must receive a context that still is a system
+// context, and an ordinary one must still be refused - for create, update and delete, both routes, both ways of
+// obtaining the system context.
+func c16PassedContexts(rep *report.Report) {
+	dir := explore.TmpDir("c16routes")
+	defer os.RemoveAll(dir)
+	n := 0
+	for _, route := range []string{"Update", "Batch"} {
+		for _, how := range []string{"GetSystemContext", "NewSystemMutateContext"} {
+			n++
+			sc := newSysScenario()
+			db, err := boltz.Open(fmt.Sprintf("%s/r%d.db", dir, n), "root")
+			if err != nil {
+				panic(err)
+			}
+			if err := sc.InitDb(db); err != nil {
+				panic(err)
+			}
+			mk := func(system bool) boltz.MutateContext {
+				ctx := boltz.NewMutateContext(context.Background())
+				if !system {
+					return ctx
+				}
+				if how == "GetSystemContext" {
+					return ctx.GetSystemContext()
+				}
+				return boltz.NewSystemMutateContext(ctx)
+			}
+			run := func(system bool, fn func(ctx boltz.MutateContext) error) error {
+				if route == "Batch" {
+					return db.Batch(mk(system), fn)
+				}
+				return db.Update(mk(system), fn)
+			}
+			steps := []struct {
+				name   string
+				system bool
+				fn     func(ctx boltz.MutateContext) error
+				wantOk bool
+			}{
+				{"create a system entity, ordinary context", false, func(ctx boltz.MutateContext) error { return sc.store.Create(ctx, sc.rec("s1", "A", true)) }, false},
+				{"create a system entity, system context", true, func(ctx boltz.MutateContext) error { return sc.store.Create(ctx, sc.rec("s1", "A", true)) }, true},
+				{"update it, ordinary context", false, func(ctx boltz.MutateContext) error { return sc.store.Update(ctx, sc.rec("s1", "B", true), nil) }, false},
+				{"update it, system context", true, func(ctx boltz.MutateContext) error { return sc.store.Update(ctx, sc.rec("s1", "B", true), nil) }, true},
+				{"create an ordinary entity, ordinary context", false, func(ctx boltz.MutateContext) error { return sc.store.Create(ctx, sc.rec("s2", "C", false)) }, true},
+				{"delete the system entity, ordinary context", false, func(ctx boltz.MutateContext) error { return sc.store.DeleteById(ctx, "s1") }, false},
+				{"delete the system entity, system context", true, func(ctx boltz.MutateContext) error { return sc.store.DeleteById(ctx, "s1") }, true},
+				{"create a system entity through the child store, system context", true, func(ctx boltz.MutateContext) error { return sc.vip.Create(ctx, sc.rec("s1", "A", true)) }, true},
+				{"delete it through the child store, ordinary context", false, func(ctx boltz.MutateContext) error { return sc.vip.DeleteById(ctx, "s1") }, false},
+			}
+			for _, st := range steps {
+				rep.Count("evaluations", 1)
+				rep.Count("passed_context_cases", 1)
+				err := run(st.system, st.fn)
+				if (err == nil) != st.wantOk {
+					rep.Violation(fmt.Sprintf("C16|passed-context|%s|%s|%s", route, how, st.name), fmt.Sprintf("Db.%s with the context passed by the caller (%s): %s - err=%v, expected success=%v", route, how, st.name, err, st.wantOk), map[string]interface{}{"route": route, "how": how, "step": st.name})
+					break
+				}
+			}
+			_ = db.Close()
+		}
+	}
 }
